@@ -31,7 +31,8 @@ from .. import core, engine_p0, workload, world
 ID = "C08"
 LEVEL = "exploration"
 MAIN_CLAUSES = ["shape", "reference", "ramp_structure", "delay_shift", "scaling", "scaling_others_unchanged",
-                "calendar_onehot", "year_block_step"]
+                "calendar_onehot", "year_block_step", "rounds_keep_supplies"]
+P_SLICE_EVERY = 8  # every 8th history is an engine-P history (full three-round runs) for the rounds clause
 RULE = (
     "history = 12-16 engine-P0 jobs in one process: 5 seeded base jobs (country/world, every documented option family, "
     "horizon 48..120 step 12, numeric overrides, randomised DELAY timers), 3 scaling twins of a base job (one baseline "
@@ -583,6 +584,12 @@ def check_step(r, p, V):
 
 # =========================================================================== history
 def generate(seed, h, tier):
+    if h % P_SLICE_EVERY == P_SLICE_EVERY - 1:
+        from .. import pcheck
+
+        s = pcheck.generate(seed, ID, h, tier, jobs=(2, 3), vertex_p=0.3, fault_p=0.0, buggify_p=0.2)
+        s["p_slice"] = True
+        return s
     rng = core.Rng(seed, ID, h)
     wl = rng.sub("workload")
     hb = engine_p0.HistoryBuilder(h, ID)
@@ -654,8 +661,25 @@ def evaluate(results, spec, V, probes):
     return nontrivial, evaluations
 
 
+def _p_nontrivial(t, spec, i):
+    return [core.digest([spec["jobs"][i], "rounds"])] if len(t.rounds) >= 2 else []
+
+
 def execute(spec):
+    if spec.get("p_slice"):
+        from .. import monitors, pcheck
+
+        return pcheck.execute(spec, ID, monitors.c08_rounds, _p_nontrivial)
     return engine_p0.run_history(spec, evaluate)
 
 
-shrink = engine_p0.shrink
+def shrink(spec):
+    if spec.get("p_slice"):
+        from .. import pcheck
+
+        for s in pcheck.shrink(spec):
+            s["p_slice"] = True
+            yield s
+        return
+    for s in engine_p0.shrink(spec):
+        yield s
